@@ -242,4 +242,33 @@ theorem readCStringNRaw_val (r : Reader) (n : Nat) : ∀ x ∈ (r.readCStringNRa
       · simp
       · simp
 
+/-- the list loop consumes one slot per entry when it ends without an error -/
+theorem readRep_consumes (n : Nat) : ∀ (cnt : Nat) (rd : Reader) (acc : List Bytes),
+    (readRep rd n cnt acc).2.err = none → (readRep rd n cnt acc).2.rest.length + n * cnt ≤ rd.rest.length
+  | 0, rd, acc, _ => by simp [readRep]
+  | c+1, rd, acc, h => by
+    simp only [readRep] at h ⊢
+    have ih := readRep_consumes n c (rd.readCStringN n).2 ((rd.readCStringN n).1 :: acc) h
+    have hs := readCStringN_step rd n
+    have hmid : (rd.readCStringN n).2.err = none := by
+      cases he : (rd.readCStringN n).2.err with
+      | none => rfl
+      | some e => exact absurd h ((readRep_step n c _ _).sticky (by simp [he]))
+    have := hs.cons hmid
+    rw [Nat.mul_succ]; omega
+
+/-- a C-string read that succeeds consumes the text and its terminator -/
+theorem readCString_consumes (r : Reader) (h : r.readCString.2.err = none) :
+    r.readCString.2.rest.length + (r.readCString.1.length + 1) = r.rest.length := by
+  unfold Reader.readCString at h ⊢
+  split
+  · rename_i e he; simp [he] at h
+  · rename_i he
+    simp only [he] at h
+    split
+    · rename_i x y hs
+      have := (splitNul_some hs).1
+      simp only; rw [this]; simp; omega
+    · rename_i hs; simp [hs] at h
+
 end SmsVerif
